@@ -702,6 +702,51 @@ func c02CheckedStores(c *an.Ctx, rule string, pkgs ...string) {
 			}
 			errE := an.Expr(errV)
 			for v := range vals {
+				// ... and handed to the engine (a method or function of the module that is not the logger) only when
+				// it parsed: ctl:ruleRemoveById=<garbage> must not remove "rule 0"
+				for _, r := range *v.Referrers() {
+					ci, ok := r.(ssa.CallInstruction)
+					if !ok {
+						continue
+					}
+					cc := ci.Common()
+					isArg := false
+					for _, a := range cc.Args {
+						if a == v {
+							isArg = true
+						}
+					}
+					if !isArg {
+						continue
+					}
+					calleePkg, calleeName := "", ""
+					if cc.IsInvoke() {
+						if cc.Method.Pkg() != nil {
+							calleePkg = cc.Method.Pkg().Path()
+						}
+						calleeName = cc.Method.Name()
+					} else if sc := cc.StaticCallee(); sc != nil && sc.Pkg != nil {
+						calleePkg, calleeName = sc.Pkg.Pkg.Path(), sc.Name()
+					}
+					if !strings.HasPrefix(calleePkg, an.ModPath) || strings.Contains(calleePkg, "debuglog") {
+						continue
+					}
+					n++
+					c.FuncsAnalysed[fn] = true
+					k := fmt.Sprintf("%s handed to %s only when it parsed, in %s", an.CalleeName(call), calleeName, an.RelName(fn))
+					seen[k]++
+					key := k
+					if seen[k] > 1 {
+						key += fmt.Sprintf("#%d", seen[k])
+					}
+					if an.FactsAt(ci).Has(errE, "==", "nil") {
+						c.Ok(rule, key, ci.Pos(), "call dominated by err == nil")
+					} else if errBranchLeaves(fn, errV) {
+						c.Ok(rule, key, ci.Pos(), "the err != nil branch leaves the function without rejoining")
+					} else {
+						c.Bad(rule, key, ci.Pos(), "the result of "+an.CalleeName(call)+" is passed to "+calleeName+" although the error it was returned with may be non-nil (the error branch falls through): the engine is given the parser's failure value (0, \"\")")
+					}
+				}
 				for _, r := range *v.Referrers() {
 					st, ok := r.(*ssa.Store)
 					if !ok || st.Val != v {
